@@ -1831,14 +1831,17 @@ class TimerManager(object):
         if queue:
             now = time.time()
             while queue:
+                timer = queue[0][1]
                 try:
-                    timer = queue[0][1]
-                    if timer.finish(now):
-                        heappop(queue)
-                    else:
-                        return timer.end
+                    done = timer.finish(now)
                 except Exception:
+                    # the timer has fired: it is removed, or its callback would be run again for as long as it raises
                     log.exception("Exception while servicing timeout callback: ")
+                    done = True
+                if done:
+                    heappop(queue)
+                else:
+                    return timer.end
 
     @property
     def next_timeout(self):
